@@ -9,6 +9,8 @@ package main
 import (
 	"errors"
 	"fmt"
+	"sync"
+	"time"
 
 	"github.com/ethereum/go-ethereum/core/types"
 	"github.com/protolambda/zrnt/eth2/beacon/capella"
@@ -21,12 +23,46 @@ type growOracle struct {
 	all   [][32]byte
 	n     int
 	calls int
+
+	// directed schedule for the first use: while gate > 0 a call waits inside the oracle until another call is inside
+	// as well (or 30 ms have passed: code that serialises its oracle calls must not be held up for good)
+	mu     sync.Mutex
+	gate   int
+	inside int
+	met    int
 }
 
 func (o *growOracle) GetHistoricalSummaries(epoch uint64) (capella.HistoricalSummaries, error) {
+	o.mu.Lock()
 	o.calls++
-	out := make(capella.HistoricalSummaries, o.n) // a fresh list on every call, as a decoded network answer is
-	for i := 0; i < o.n; i++ {
+	n := o.n
+	wait := o.gate > 0
+	if wait {
+		o.gate--
+		o.inside++
+	}
+	o.mu.Unlock()
+	if wait {
+		deadline := time.Now().Add(30 * time.Millisecond)
+		for {
+			o.mu.Lock()
+			together := o.inside >= 2
+			o.mu.Unlock()
+			if together || time.Now().After(deadline) {
+				break
+			}
+			time.Sleep(200 * time.Microsecond)
+		}
+		time.Sleep(2 * time.Millisecond) // everybody who met here leaves after the others have seen the meeting
+		o.mu.Lock()
+		if o.inside >= 2 {
+			o.met++
+		}
+		o.mu.Unlock()
+		defer func() { o.mu.Lock(); o.inside--; o.mu.Unlock() }()
+	}
+	out := make(capella.HistoricalSummaries, n) // a fresh list on every call, as a decoded network answer is
+	for i := 0; i < n; i++ {
 		out[i].BlockSummaryRoot = zcommon.Root(o.all[i])
 		out[i].StateSummaryRoot = zcommon.Root(hash2(o.all[i], o.all[i]))
 	}
@@ -56,6 +92,51 @@ func runOracleFamily(r *lib.Run, fi int) *fam {
 	a := &accSet{val: validation.NewHeaderValidatorWithOracle(o)}
 	steps := 40 + rng.Intn(60)
 	grows := 0
+	if fi%2 == 1 {
+		// first use from several goroutines at once, as when a node has just started and several offered headers are
+		// validated by the worker pool: the validations meet inside the oracle call. Each one is honest and must be
+		// accepted; what the validator remembers afterwards is judged by the steps that follow.
+		K := 2 + rng.Intn(3)
+		o.gate = K
+		type out struct {
+			it  postItem
+			err error
+			pan *panicInfo
+		}
+		outs := make([]out, K)
+		var wg sync.WaitGroup
+		for k := 0; k < K; k++ {
+			outs[k].it = items[rng.Intn(o.n)]
+			wg.Add(1)
+			go func(k int) {
+				defer wg.Done()
+				outs[k].err, outs[k].pan = callReal(a.val, outs[k].it.hdr, outs[k].it.proof)
+			}(k)
+		}
+		wg.Wait()
+		o.mu.Lock()
+		o.gate = 0
+		met := o.met
+		o.mu.Unlock()
+		f.count("oracle_concurrent_first_use_histories", 1)
+		if met > 0 {
+			f.count("oracle_concurrent_first_use_validations_met_inside_the_oracle", met)
+		}
+		for _, x := range outs {
+			f.evals++
+			if x.err != nil || x.pan != nil {
+				code := "PANIC"
+				if x.pan == nil {
+					code = "error: " + x.err.Error()
+				} else {
+					code += ": " + x.pan.raw
+				}
+				f.violation("reject-honest:"+x.it.rules.String()+":oracle-grow|concurrent-first-use",
+					"an honest proof for an era the oracle reports was not accepted when several validations used a fresh oracle-backed validator at the same time",
+					map[string]any{"family": f.name, "header_rlp": headerRLP(x.it.hdr), "proof": lib.Hex(x.it.proof), "slot": x.it.slot, "code": code, "historical_summaries_reported_by_oracle": o.n, "concurrent_validations": K})
+			}
+		}
+	}
 	for s := 0; s < steps; s++ {
 		if o.n < L && rng.Intn(4) == 0 {
 			o.n = min(L, o.n+1+rng.Intn(3))
@@ -78,6 +159,9 @@ func runOracleFamily(r *lib.Run, fi int) *fam {
 			f.check(a, it.hdr, it.proof, cls, k, -1)
 		default: // the same proof presented for the same in-period index of another era
 			j := rng.Intn(L)
+			if c := rng.Intn(4); c < 2 && i+(c+1)*o.n < L {
+				j = i + (c+1)*o.n // the same index one or two reported-list lengths further on
+			}
 			if j == i {
 				j = (i + 1) % L
 			}
